@@ -594,3 +594,192 @@ def probe_slp(spec):
         o['robust'] = {'solve': 'crash', 'error': repr(e)[:300]}
     o['xs'] = [None if x is None else [float(v) for v in x] for x in xs]
     return o
+
+
+# ------------------------------------------------------------------ C10: purity of set-up (operation sequences on shared objects)
+def _grid_prices(spec, gi, j, T):
+    """price / capacity arrays for grid variant gi (length T), variant j (0 = base, 1 = perturbed prices)"""
+    out = {}
+    for k, v in spec.get('prices', {}).items():
+        rs = np.random.RandomState(zlib.crc32(('%s/%s/%d' % (spec.get('seed', ''), k, gi)).encode()) & 0x7fffffff)
+        if gi == 0:
+            base = np.asarray(v, dtype=float)
+        else:
+            lo, hi = (min(v), max(v)) if len(v) else (0.0, 1.0)
+            base = np.round(rs.uniform(lo, hi, size=T) * 8) / 8.0 if T > 0 else np.zeros(0)
+        if len(base) != T:        # grid 0 of the spec always fits; defensive
+            base = np.resize(base, T) if T > 0 else np.zeros(0)
+        if j == 1 and k.startswith('p'):
+            base = base[::-1] * 0.5 + 1.0
+        out[k] = base.copy()
+    return out
+
+
+def _dump_any(op):
+    if hasattr(op, 'ops'):          # split problem
+        return {'split': [dump_problem(p) for p in op.ops], 'c': [float(v) for v in op.c], 'mapping': dump_mapping(op.mapping)}
+    return dump_problem(op)
+
+
+def _snapshot_params(assets):
+    import copy as _c
+    snap = []
+    for a in assets:
+        d = {}
+        for k, v in vars(a).items():
+            if isinstance(v, dict):
+                d[k] = _c.deepcopy(v)
+        snap.append(d)
+    return snap
+
+
+def _params_changed(assets, snap):
+    bad = []
+    for a, d in zip(assets, snap):
+        for k, v0 in d.items():
+            v1 = getattr(a, k, None)
+            try:
+                same = isinstance(v1, dict) and set(v1) == set(v0) and all(
+                    len(v1[kk]) == len(v0[kk]) and all(x == y for x, y in zip(list(v1[kk]), list(v0[kk]))) for kk in v0)
+            except Exception:
+                same = False
+            if not same:
+                bad.append([a.name, k, str(v0)[:200], str(v1)[:200]])
+    return bad
+
+
+def probe_purity(spec):
+    import datetime as _dt
+    ops = spec['opts']['ops']
+    grids = spec['opts']['grids']
+    o = {'status': 'ok', 'steps': []}
+    tz0 = spec['grid'].get('tz')
+
+    def fresh_objects():
+        pf = mk_portfolio(spec)
+        gs = [mk_grid(g) for g in grids]
+        import build as _b
+        _b._TZ[0] = tz0
+        return pf, gs
+
+    try:
+        portf, G = fresh_objects()
+    except Exception as e:
+        return {'status': 'setup_error', 'error': repr(e)[:300]}
+    snap = _snapshot_params(portf.assets)
+    Ts = [g.T for g in G]
+    prices_used = {}
+    fixdict = None
+    last_pgrid = None                      # grid index last given to the portfolio
+    agrid = {}                             # asset index -> grid index last set
+    ahow = {}                              # ... and how: 'set' (set_timegrid) or 'setup' (a set-up that was handed the grid)
+
+    def prices(gi, j):
+        key = (gi, j)
+        if key not in prices_used:
+            prices_used[key] = (_grid_prices(spec, gi, j, Ts[gi]), _grid_prices(spec, gi, j, Ts[gi]))
+        return prices_used[key][0]
+
+    def run(f):
+        try:
+            return {'ok': True, 'problem': _dump_any(f())}
+        except Exception as e:
+            return {'ok': False, 'error': type(e).__name__ + ': ' + str(e)[:160]}
+
+    for st in ops:
+        kind = st['op']
+        rec = {'op': st}
+        if kind == 'P':
+            gi, j = st['g'], st['p']
+            rec['reused'] = run(lambda: portf.setup_optim_problem(prices(gi, j), G[gi]))
+            def fr():
+                pf, gs = fresh_objects()
+                return pf.setup_optim_problem(_grid_prices(spec, gi, j, Ts[gi]), gs[gi])
+            rec['fresh'] = run(fr)
+            last_pgrid = gi
+            for k in range(len(portf.assets)):
+                agrid[k] = gi
+                ahow[k] = 'setup'
+        elif kind == 'Pn':
+            if last_pgrid is None:
+                continue
+            gi, j = last_pgrid, st['p']
+            rec['reused'] = run(lambda: portf.setup_optim_problem(prices(gi, j)))
+            def fr():
+                pf, gs = fresh_objects()
+                return pf.setup_optim_problem(_grid_prices(spec, gi, j, Ts[gi]), gs[gi])
+            rec['fresh'] = run(fr)
+        elif kind == 'S':
+            gi, j = st['g'], st['p']
+            rec['reused'] = run(lambda: portf.setup_split_optim_problem(prices(gi, j), G[gi], interval_size=st['size']))
+            def fr():
+                pf, gs = fresh_objects()
+                return pf.setup_split_optim_problem(_grid_prices(spec, gi, j, Ts[gi]), gs[gi], interval_size=st['size'])
+            rec['fresh'] = run(fr)
+            last_pgrid = gi
+            for k in range(len(portf.assets)):
+                agrid[k] = gi
+                ahow[k] = 'setup'
+        elif kind == 'A':
+            k, gi, j = st['k'] % len(portf.assets), st['g'], st['p']
+            rec['reused'] = run(lambda: portf.assets[k].setup_optim_problem(prices(gi, j), G[gi]))
+            def fr():
+                pf, gs = fresh_objects()
+                return pf.assets[k].setup_optim_problem(_grid_prices(spec, gi, j, Ts[gi]), gs[gi])
+            rec['fresh'] = run(fr)
+            agrid[k] = gi
+            ahow[k] = 'setup'
+        elif kind == 'At':
+            k, gi = st['k'] % len(portf.assets), st['g']
+            try:
+                portf.assets[k].set_timegrid(G[gi])
+                agrid[k] = gi
+                ahow[k] = 'set'
+            except Exception as e:
+                rec['error'] = repr(e)[:200]
+        elif kind == 'An':
+            k, j = st['k'] % len(portf.assets), st['p']
+            if k not in agrid:
+                continue
+            if ahow.get(k) == 'set' and type(portf.assets[k]).__name__ in ('ScaledAsset', 'StructuredAsset', 'LinkedAsset'):
+                continue      # set_timegrid of a wrapper does not reach the wrapped assets: no defined meaning without an earlier set-up
+            gi = agrid[k]
+            rec['reused'] = run(lambda: portf.assets[k].setup_optim_problem(prices(gi, j)))
+            def fr():
+                pf, gs = fresh_objects()
+                if ahow.get(k) == 'set':
+                    pf.assets[k].set_timegrid(gs[gi])
+                else:
+                    pf.assets[k].setup_optim_problem(_grid_prices(spec, gi, 0, Ts[gi]), gs[gi])
+                return pf.assets[k].setup_optim_problem(_grid_prices(spec, gi, j, Ts[gi]))
+            rec['fresh'] = run(fr)
+        elif kind == 'F':
+            gi, j = st['g'], st['p']
+            kk = st['k'] % max(Ts[gi], 1)
+            if fixdict is None:
+                o['fix'] = {'g': gi, 'k': kk, 'date': bool(st.get('date', True))}
+                fixdict = {'I': G[gi].timepoints[kk].to_pydatetime() if o['fix']['date'] else (np.arange(Ts[gi]) <= kk), 'x': np.zeros(5000)}
+            fx = o['fix']
+            rec['reused'] = run(lambda: portf.setup_optim_problem(prices(gi, j), G[gi], fix_time_window=fixdict))
+            def fr():
+                pf, gs = fresh_objects()
+                fw = {'I': gs[fx['g']].timepoints[fx['k']].to_pydatetime() if fx['date'] else (np.arange(Ts[fx['g']]) <= fx['k']), 'x': np.zeros(5000)}
+                return pf.setup_optim_problem(_grid_prices(spec, gi, j, Ts[gi]), gs[gi], fix_time_window=fw)
+            rec['fresh'] = run(fr)
+            last_pgrid = gi
+            for k in range(len(portf.assets)):
+                agrid[k] = gi
+                ahow[k] = 'setup'
+        elif kind == 'J':
+            try:
+                eao.serialization.to_json(portf)
+            except Exception as e:
+                rec['error'] = repr(e)[:200]
+        if 'reused' in rec and not rec['reused']['ok'] and kind in ('P', 'S', 'F', 'A'):
+            # a failed set-up leaves the objects half way (e.g. pointing to an interval grid): what 'the grid set previously'
+            # means is undefined from here on; only set-ups that are handed their grid are compared afterwards
+            agrid.clear(); ahow.clear(); last_pgrid = None
+        o['steps'].append(rec)
+    o['params_changed'] = _params_changed(portf.assets, snap)
+    o['prices_changed'] = [[list(k), kk] for k, (used, ref0) in prices_used.items() for kk in used if not np.array_equal(used[kk], ref0[kk])]
+    return o
